@@ -98,6 +98,37 @@ theorem parser_feeds_smono (pc : PCfg) (raws : List Raw) (start : Int) (evs : Li
   smono_weaken _ (by simp only [initS]; omega) evs (smono_of_itemsMono _ start evs (by
     rw [hitems]; exact parseAll_itemsMono pc raws { lastSent := start } initS.txn rfl hraw hlo))
 
+/-- the same for a RESUMED run: `parserItems` = the optional initial `select
+    <startDbId>` carrying the start offset, then the parser's output -/
+theorem resumed_parser_feeds_smono (pc : PCfg) (raws : List Raw) (start : Int) (evs : List Ev)
+    (hitems : itemsOf evs = parserItems pc start raws)
+    (hraw : (raws.map (·.off)).Pairwise (· < ·)) (hlo : ∀ r ∈ raws, start < r.off)
+    (hstart : 0 ≤ start) :
+    SMono initS.txn initS.lastOffset evs := by
+  apply smono_of_itemsMono
+  rw [hitems]
+  unfold parserItems
+  have hbase := parseAll_itemsMono pc raws { lastSent := start }
+  split
+  · -- the initial select: queued, above the loop's initial offset −1, leaves status `barrier`
+    have hsp : bSelect ≠ bPing := by decide
+    simp only [List.singleton_append, ItemsMono, selectItem, initS]
+    refine ⟨by omega, fun _ _ => by omega, ?_⟩
+    have hta : txnAfter Txn.no { cmd := bSelect, args := [intToDec pc.startDbId], offset := start, db := pc.startDbId } = Txn.barrier := by
+      simp [txnAfter, hsp, txnStatus, cmdClass]
+    rw [hta]
+    exact hbase Txn.barrier rfl hraw hlo
+  · simp only [List.nil_append]
+    have := hbase initS.txn rfl hraw hlo
+    exact (by
+      -- weaken the starting offset from `start` to the loop's initial −1
+      have hw : ∀ (t : Txn) (a b : Int) (l : List Item), a ≤ b → ItemsMono t b l → ItemsMono t a l := by
+        intro t a b l hab h
+        cases l with
+        | nil => trivial
+        | cons i rest => exact ⟨by have := h.1; omega, fun hp hf => by have := h.2.1 hp hf; omega, h.2.2⟩
+      exact hw _ _ _ _ (by simp only [initS]; omega) this)
+
 /-- the whole run keeps the wire ordered, and bounded by what is still pending -/
 theorem run_ok (c : SCfg) (s : SState) (evs : List Ev) (hq : QOk s.queue s.lastOffset)
     (hm : SMono s.txn s.lastOffset evs) :
